@@ -1058,7 +1058,6 @@ class LinearOperator(object):
         from linear_operator.operators import to_linear_operator
         from linear_operator.operators.root_linear_operator import RootLinearOperator
         from linear_operator.operators.sum_linear_operator import SumLinearOperator
-        from linear_operator.operators.triangular_linear_operator import TriangularLinearOperator
 
         if not isinstance(self, SumLinearOperator):
             new_linear_op = self + to_linear_operator(low_rank_mat.matmul(low_rank_mat.mT))
@@ -1083,7 +1082,6 @@ class LinearOperator(object):
 
         # first get LL^T = A
         current_root = self.root_decomposition(method=root_decomp_method, **root_decomp_kwargs).root
-        return_triangular = isinstance(current_root, TriangularLinearOperator)
 
         # and MM^T = A^{-1}
         current_inv_root = self.root_inv_decomposition(method=root_inv_decomp_method).root.mT
@@ -1129,10 +1127,6 @@ class LinearOperator(object):
         inner_inv_root = U.matmul(torch.diag_embed(stacked_inv_root_S))
         # finally \tilde{L}^{-1} = L^{-1} U \tilde{S}^{-1}
         updated_inv_root = current_inv_root.mT.matmul(inner_inv_root)
-
-        if return_triangular:
-            updated_root = TriangularLinearOperator(updated_root)
-            updated_inv_root = TriangularLinearOperator(updated_inv_root)
 
         add_to_cache(new_linear_op, "root_decomposition", RootLinearOperator(updated_root))
         add_to_cache(new_linear_op, "root_inv_decomposition", RootLinearOperator(updated_inv_root))
